@@ -581,6 +581,8 @@ def check(ctx):
     concatenate_clauses(ctx)
     concatenate_target_schema(ctx)
     sources_clause(ctx)
+    from rules import rows as _rows16
+    _rows16.sample_rechained(ctx)       # iterables: every row read ahead for the schema is handed on
     from rules import independence
     independence.r28_functions(ctx, [('dataflows.processors.concatenate:concatenator', {}),
                                      ('dataflows.processors.duplicate:saver', {}), ('dataflows.processors.duplicate:loader', {})])
